@@ -6,6 +6,8 @@ CONSTANTS
   MaxKe = 3
   MaxCases = 2
   ScDev = 2
+  MaxHist = 4
+  Bursts = {"vn", "vk", "mix"}
   Wide = TRUE
   ExtLenZeroLoops = FALSE
   NonceLenUnchecked = FALSE
